@@ -160,24 +160,22 @@ def main(tier):
                 variants.append((" -i %s", ["-i", "%s", str(a), str(bb)]))
             if pi % 3 == 2 or not quick:
                 variants.append((" (ymcw)", ["-i", "%Y-%m-%c-%wT%T", ymcw(a), ymcw(bb)]))
-            # the real-second count next to other specifiers of the same format (nanoseconds, a literal tail)
+            # the real-second count next to other specifiers of the same format (nanoseconds, literals, plain seconds or %T after it)
             if pi % 4 == 0 or not quick:
-                variants.append((" %rS.%N", [iso(a), iso(bb)]))
-                variants.append((" x%rSy%Nz", [iso(a), iso(bb)]))
+                for f_ in ("%rS.%N", "x%rSy%Nz", "%rS %S", "%rS|%T", "%S %rS"):
+                    variants.append((" " + f_, [iso(a), iso(bb)]))
             for tag, args in variants:
-                fmt = {" %rS.%N": "%rS.%N", " x%rSy%Nz": "x%rSy%Nz"}.get(tag, "%rS")
+                fmt = tag[1:] if tag.startswith(" %") or tag.startswith(" x") else "%rS"
                 p = core.run([ddiff] + args + ["-f", fmt], timeout=20)
                 nrun += 1
                 try:
                     o_ = p.stdout.strip()
-                    if fmt == "%rS.%N":
-                        o_, ns = o_.split(".")
-                        o_ = o_ if ns == "000000000" else "bad"
-                    elif fmt != "%rS":
-                        # a negative duration carries its sign in front of the whole output
-                        sg, body = ("-", o_[1:]) if o_.startswith("-") else ("", o_)
-                        o_, ns = body[1:-1].split("y")
-                        o_ = sg + o_ if ns == "000000000" and body[0] == "x" and body[-1] == "z" else "bad"
+                    if fmt != "%rS":
+                        # a negative duration carries one sign in front of the whole output; the real-second field is the first number
+                        # (the second one for "%S %rS")
+                        nums = re.findall(r"\d+", o_)
+                        n_ = nums[1 if fmt.startswith("%S") else 0]
+                        o_ = ("-" if o_.startswith("-") or ("-" + n_) in o_ else "") + n_       # (the sign sits in front of the output or of the number)
                     rv = int(o_)
                 except (ValueError, IndexError):
                     rv = 2 ** 31 - 1
